@@ -1448,6 +1448,20 @@ impl Sim {
         if !running.is_empty() {
             let (t, ws) = self.rng.pick(&running).clone();
             let reason = *self.rng.pick(&reasons);
+            // a task still Retracting from a worker of this multi-node task (the state family of finding F27): one
+            // cancel request over both jobs makes `on_cancel_tasks` collect ids of both for the same worker
+            let retracting: Vec<TaskId> = snap
+                .tasks
+                .iter()
+                .filter_map(|x| if let SnapTaskState::Retracting(w) = &x.state { ws.contains(w).then_some(x.id) } else { None })
+                .collect();
+            if !retracting.is_empty() && self.rng.chance(1, 2) {
+                let mut js = vec![t.job_id().as_num(), self.rng.pick(&retracting).job_id().as_num()];
+                js.sort();
+                js.dedup();
+                self.client_action(format!("cancel {}", list(js.iter())), FromClientMessage::Cancel(CancelRequest { selector: Self::selector(&js), reason: None }));
+                return true;
+            }
             match self.rng.below(8) {
                 0 | 1 | 2 => self.do_lose_worker(ws[0], reason),
                 3 => {
